@@ -77,6 +77,16 @@ def gen_cases(tier, seed):
         spec = gen.spec(nodes, edges, nattr=attr if node else None, eattr=None if node else attr)
         cases.append({"spec": spec, "cyc": cyc, "node": node, "wt": wt, "ignore": gen.jl(ign), "scale": [[gen.jl(e) if isinstance(e, tuple) else e, f] for e, f in sc.items()],
                       "starts": starts, "ends": ends, "lam": lam, "eps": eps})
+    # corpus (found by a bug hunter): a cyclic float instance on which the solver returns -1.1e-13 for an edge whose optimum value is 0
+    E_ = [("v0", "v3", 469.79), ("v3", "v0", 384.8), ("v3", "v1", 113.96), ("v2", "v1", 195.07), ("v2", "t", 61.55), ("v2", "v0", 600.07), ("v1", "v3", 206.64), ("s", "v3", 955.61)]
+    cases.append({"spec": gen.spec(["v0", "v1", "v2", "v3", "s", "t"], [(u, v) for u, v, _ in E_], eattr={(u, v): {"flow": f} for u, v, f in E_}), "cyc": True, "node": False, "wt": "float",
+                  "ignore": [], "scale": [], "starts": [], "ends": [], "lam": 0, "eps": None})
+    for i in range(12 if tier == "quick" else 200):
+        # the same family at random: cyclic graphs with two-decimal float weights (sums and differences are not exact in binary)
+        rng = gen.rng_for("C16dec", seed, i)
+        nodes, edges = gen.cyc_any(rng, 10)
+        cases.append({"spec": gen.spec(nodes, edges, eattr={e: {"flow": round(rng.uniform(1, 999), 2)} for e in edges}), "cyc": True, "node": False, "wt": "float",
+                      "ignore": [], "scale": [], "starts": [], "ends": [], "lam": 0, "eps": None})
     return cases
 
 
@@ -182,7 +192,7 @@ def run_case(case):
     else:
         val = {e: H.edges[e].get("flow") for e in G.edges if "flow" in G.edges[e]}
         orig = {e: G.edges[e]["flow"] for e in val}
-    bad = [(e, x) for e, x in val.items() if x is None or x < -1e-9 or (wt == "int" and not isinstance(x, int))]
+    bad = [(e, x) for e, x in val.items() if x is None or x < 0 or (wt == "int" and not isinstance(x, int))]      # (non-negative, literally: the library's own models reject -1e-13)
     if bad:
         viol.append({"sig": f"C16/bad-values{tagstr}", "msg": f"{bad[:3]}; {desc}"})
         return {"viol": viol, "obs": dict(obs), "nontrivial": False, "sample": {"desc": desc}}
